@@ -32,6 +32,9 @@ FORBIDDEN = re.compile(
     r"type-in-type|impredicative-set|native_compute)\b")
 
 
+AUDIT_EXTRA = {"C09": ("C09ring",)}
+
+
 def log(*a):
     print("[check]", *a, flush=True)
 
@@ -81,9 +84,11 @@ def coq_term(v):
 
 
 # ---------------------------------------------------------------- proof stage
-def text_audit():
+def text_audit(prop=None):
     bad = []
     for d, _, fs in os.walk(os.path.join(COQ, "theories")):
+        if prop and os.path.basename(d) not in (prop, "Common") + tuple(AUDIT_EXTRA.get(prop, ())):
+            continue
         for f in fs:
             if not f.endswith(".v"):
                 continue
@@ -138,7 +143,7 @@ def coq_build(clean=False, timeout=1500, targets=None):
 def proof_stage(P, tier):
     """returns dict(obligations, discharged, assumptions, errors, checker_cmd)"""
     res = {"obligations": 0, "discharged": 0, "assumptions": [], "errors": [], "theorems": []}
-    audit = text_audit()
+    audit = text_audit(P.ID)
     if audit:
         res["errors"].append("text audit: " + "; ".join(audit[:5]))
     rc, out = coq_build(targets=["theories/%s/Props.vo" % P.ID, "theories/%s/Corr.vo" % P.ID])
